@@ -2646,10 +2646,13 @@ func (p *Parser) testClause(s *Stmt) {
 		p.followErrExp(tc.Left, dblLeftBrack)
 	}
 	tc.Right = p.pos
-	if _, ok := p.gotRsrv("]]"); !ok {
+	if p.tok != _LitWord || p.val != "]]" {
 		p.matchingErr(tc.Left, dblLeftBrack, dblRightBrack)
 	}
+	// Leave the nested state before reading the next token, so that
+	// a newline starts the bodies of any pending here-documents.
 	p.postNested(old)
+	p.next()
 	s.Cmd = tc
 }
 
